@@ -46,7 +46,7 @@ def canon(x):
     if x is None or isinstance(x, (bool, str)):
         return repr(x)
     if isinstance(x, (int,)):
-        return repr(int(x))
+        return repr(float(x)) if abs(x) < 2**53 else repr(int(x))   # 3 and 3.0 are the same observation
     if isinstance(x, float):
         return repr(x)
     if isinstance(x, np.generic):
